@@ -100,7 +100,8 @@ def network_simplex(
     depth[root] = 0
 
     # pi[i] = node potential (dual variable); reduced cost = cost - pi[src] + pi[tgt]
-    pi = [0.0] * total_nodes
+    # (exact for integer costs: big-M times the node count passes 2**53 long before a single cost does)
+    pi = [0] * total_nodes
     for i in range(n):
         arc = pred[i]
         if source[arc] == i:
